@@ -384,6 +384,6 @@ def execute(case, ctx):
 
 MANIFEST = {
     "technique": "property-based testing (Hypothesis) against a reference model: numpy Jordan-Wigner matrices of the same algebraic expressions",
-    "text": "Seeded random search over polynomials in creation/annihilation operators (arbitrary factor order, cancelling dyadic coefficients, re-written equal forms); every algebraic operation, the equality and commutation predicates, actRight/getMatrixElement on every Fock state and the specialised N/Sz operators are compared with independent matrices.",
+    "text": "Seeded random search over polynomials in creation/annihilation operators (arbitrary factor order, cancelling dyadic coefficients, re-written equal forms); every algebraic operation, the equality and commutation predicates, the compound assignments (also with the same object on both sides), actRight/getMatrixElement on every Fock state and the specialised N/Sz operators are compared with independent matrices; polynomials over up to 62 modes are applied to single Fock states and compared with a bit-string Jordan-Wigner action; all pairs of short monomials are enumerated exhaustively.",
     "note": "Trusted: numpy, pbt/oracle.py, the runner's alg sub-interpreter.",
 }
